@@ -9,7 +9,7 @@ prop("C07",
                   "the server accepts every transmitted move that is legal and on turn in its own history; wire parsing (ParseServer) is taken from the real code per line (C11/C13 own it)",
                   "the AI never answers tak.Pass (FormatServer has no wire form for it)",
                   "the grace timer is reached through a one-token rewrite of bot.go at harness build time (time.After -> package variable, harness/rewrite/playtak_bot.json); the real 500 ms duration is not exercised"],
-     per_op_timeout="30s",
+     per_op_timeout="150s",
      search_thorough_on_break=True,
      why="the Lean model of handleMove (with the stale-answer fix) is proved to keep the record equal to the server's history and to transmit only legal, on-turn answers computed for the current position (Props/C07.lean: bot_inv, bot_ends_iff); the real loop disagrees with it on this schedule",
      dedup=lambda m: (m["ops"][-1].split(" ")[0:2] and " ".join(m["ops"][-1].split(" ")[0:2]), m["go"].split(" ")[0], m["model"].split(" ")[0]))
